@@ -225,7 +225,8 @@ class FramingModel:
                     readers.append(v)
             row["reader"], row["fused"] = self.reader_class(p, readers[0][1]) if len(readers) == 1 else ("?", False)
             src_key = (self.src,)
-            row["released"] = any(e[1] == "drop" and e[3] == src_key for e in p.events)
+            # (dropped where it is: in new_request itself, or in the helper it was moved into)
+            row["released"] = any(e[1] == "drop" and (e[3] == src_key or e[4] == ("init", src_key)) for e in p.events)
             row["reads"] = len([e for e in p.calls() if re.search(r"std::io::Read::read(_exact|_to_end)?$| as std::io::Read>::read(_exact|_to_end)?$", e[2]) or (e[6] or "").startswith("std::io::Read::read")])
             whole = ("agg", REQ, "Request", rq)
             row["length"] = [term_at(whole, path) for path in self.length_paths()]
